@@ -13,7 +13,7 @@ import warnings
 
 from sim import factory
 from sim.choices import payload
-from sim.kernel import (ClockSeam, LivenessViolation, NullOut, Pipe, SimClock, SimDeadlock, SimRaw, SimSocket,
+from sim.kernel import (ClockSeam, library_exception, LivenessViolation, NullOut, Pipe, SimClock, SimDeadlock, SimRaw, SimSocket,
                         StepBudgetExceeded, World)
 from sim.runner import Outcome
 
@@ -300,14 +300,16 @@ def run(ch, render=False):
             trim.__enter__()
             if trim.active and any(s_ > knob for (s_, _k, _e) in layout[1:] if s_ < cut):
                 w.probe("trim_taken_before_cut")
-            if consumer == "ccsds_generator":
-                gen = pk.ccsds_generator(source, **kwargs)
-            elif consumer == "packet_generator_headers_only":
-                gen = _defn_empty.packet_generator(source, ccsds_headers_only=True, **kwargs)
-            else:
-                gen = _defn_hdr.packet_generator(source, **kwargs)
-            w.ev("consumer", "start", src, consumer)
+            gen = None
             try:
+                # creation is inside the try as well: a library whose set-up runs eagerly may raise here already
+                if consumer == "ccsds_generator":
+                    gen = pk.ccsds_generator(source, **kwargs)
+                elif consumer == "packet_generator_headers_only":
+                    gen = _defn_empty.packet_generator(source, ccsds_headers_only=True, **kwargs)
+                else:
+                    gen = _defn_hdr.packet_generator(source, **kwargs)
+                w.ev("consumer", "start", src, consumer)
                 while True:
                     if len(got) >= cap_items:
                         err = ("too_many_items", f"more than {cap_items} items from {total} bytes")
@@ -320,10 +322,12 @@ def run(ch, render=False):
             except (LivenessViolation, SimDeadlock, StepBudgetExceeded) as e:
                 err = (type(e).__name__, str(e))
             except Exception as e:
+                library_exception(e)
                 err = ("exception", e)
             finally:
                 try:
-                    gen.close()
+                    if gen is not None:
+                        gen.close()
                 except Exception:
                     pass
     finally:
